@@ -247,9 +247,13 @@ def case_est(ctx, res, p):
 def gen_est_case(rng):
     n, d = 12, 2
     X, _ = gen_points(rng, n, d, kind="plain", scale=1.0)
-    cfg = ["full", "full_nystroem", "sparse_cholesky", "sparse_nystroem", "fixed"][rng.integers(5)]
+    cfg = ["full", "full_nystroem", "sparse_cholesky", "sparse_nystroem", "fixed", "full+landmarks"][rng.integers(6)]
     kw, Xu = {}, None
-    if cfg == "full":
+    if cfg == "full+landmarks":
+        # non-sparse model with explicit landmarks (the cells in another order, or more points than cells): still L L^T = K + jitter I
+        Xu = X[rng.permutation(n)] if rng.random() < 0.5 else gen_points(rng, n + 2, d, kind="plain")[0]
+        kw = dict(gp_type="full") if rng.random() < 0.5 else {}
+    elif cfg == "full":
         kw = dict(n_landmarks=0)
     elif cfg == "full_nystroem":
         kw = dict(gp_type="full_nystroem", rank=[0.9, 3][rng.integers(2)])
